@@ -221,6 +221,15 @@ class XlaWalker(Walker):
         if len(f["args"]) != len(params):
             self.bad("signature-arity", text_args=len(f["args"]), graph_args=len(params))
             return
+        # every type name the body uses is either XlaOp or the declared template parameter (std::numeric_limits<T>, T(..) casts and "T name = .." locals)
+        import re as _re
+
+        body = text[text.find("{"):] if "{" in text else text
+        used_types = set(_re.findall(r"std::numeric_limits<\s*([A-Za-z_][A-Za-z_0-9]*)\s*>", body)) | {t_ for t_, _, _ in f["stmts"] if t_ != "XlaOp"}
+        for tname_ in sorted(used_types):
+            rec.count("bindings:checked")
+            if tname_ != f["template"] and tname_ not in ("float", "double", "bool", "int"):
+                self.bad("type-name-not-declared", name=tname_, template_parameter=f["template"])
         for (typ, a), p in zip(f["args"], params):
             if typ != "XlaOp":
                 self.bad("argument-type", got=typ)
